@@ -1086,7 +1086,7 @@ def run(ctx):
         if 'obj' in case:
             _object_cases(ctx, case['obj'], reqs, pending)
     _helpers(ctx, reqs, pending)
-    n = ctx.n(100, 900)
+    n = ctx.n(64, 900)
     if ctx.search_mode:
         n = min(n, 400 if ctx.tier == 'quick' else 2000)      # the failing-input search stays within minutes
     procs = int(os.environ.get('HDV_PROCS', '0') or 0) or min(8, os.cpu_count() or 1)
